@@ -434,6 +434,22 @@ func successors(s attState, resign bool) []mc.BFSState {
 			return true
 		})
 	}
+	// C'. attributes named like the library's own result fields (a decoder that maps them would
+	// let the message assert its own trust indicators)
+	for t := -1; t < nA; t++ {
+		t := t
+		apply(fmt.Sprintf("self-asserted-flag-attr[%d]", t), func(d *etree.Document) bool {
+			el := d.Root()
+			if t >= 0 {
+				el = A(d, t)
+			}
+			if el.SelectAttr("SignatureValidated") != nil {
+				return false
+			}
+			el.CreateAttr("SignatureValidated", "true")
+			return true
+		})
+	}
 	// D. re-sign an element with the attacker's key
 	if resign {
 		for t := -1; t < nA; t++ {
